@@ -32,7 +32,10 @@ MANIFEST = {
             'repaired in /repo (c7bb64a) and checked as an ordinary case; open finding there: F-C07-4 (list of tuple-share group elements: non-receiver gets r*n '
             'Nones). Lists with duplicate party indices are outside the theorems that need NoDup and are not generated. '
             'm <= 4 exhaustive for subsets (m <= 3 for arbitrary graphs), m = 5..7 sampled; recombined values compared for '
-            'a random 30% of numeric outputs in the quick tier.',
+            'a random 30% of numeric outputs in the quick tier. Aliasing stream (m=1 -M1 and m=3): every list/dict argument of '
+            'output / input / transfer is changed in place by the caller between the call and the await; expected = '
+            'model on the call-time arguments; output receivers late read F-C07-5 fixed (8b4dfdd); transfer reads all '
+            'its arguments late (coroutine annotated -> Future has no synchronous part): open finding F-C07-6.',
     'technique': 'Coq proof (lia over Z mod, Lagrange interpolation) + multi-party simulator correspondence by vm_compute',
 }
 
@@ -48,6 +51,47 @@ def payload(k, pid):
     if mode == 1:
         return [pid, item]
     return {'from': pid, 'item': item}
+
+
+def op_payload(op, k, pid):
+    """The object party pid hands to transfer in op k (aliasing ops: a fresh mutable list owned by the caller)."""
+    if 'alias' in op:
+        return [pid, 'a', 'b', k]
+    return payload(k, pid)
+
+
+MUTATIONS = ('reverse', 'overwrite', 'del', 'append', 'clear')
+
+
+def apply_mutation(c, mutation, filler, filler2=None):
+    """In-place change of the caller's own container, made between the call and the await."""
+    if isinstance(c, dict):
+        keys = list(c)
+        if mutation == 'clear':
+            c.clear()
+        elif not keys:
+            return
+        elif mutation == 'reverse':
+            c[keys[0]].reverse()
+        elif mutation == 'overwrite':
+            c[keys[0]] = []
+        elif mutation == 'del':
+            del c[keys[0]]
+        elif mutation == 'append':
+            c[keys[0]].append(filler)
+        return
+    if mutation == 'reverse':
+        c.reverse()
+    elif mutation == 'overwrite':
+        if c:
+            c[0] = filler
+    elif mutation == 'del':
+        if c:
+            del c[-1]
+    elif mutation == 'append':
+        c.append(filler if filler2 is None else filler2)
+    elif mutation == 'clear':
+        c.clear()
 
 
 def subsets(m):
@@ -195,7 +239,20 @@ async def exec_op(op, k, env, pid, m, mark):
         else:
             kw['sender_receivers'] = [tuple(ab) for ab in op['pairs']]
         mark('main')
-        r = await mpc.transfer(payload(k, pid), **kw)
+        obj = op_payload(op, k, pid)
+        fut = mpc.transfer(obj, **kw)
+        al = op.get('alias')
+        if al:          # the caller goes on and changes ITS OWN objects before awaiting the result
+            if al['arg'] == 'obj':
+                apply_mutation(obj, al['mutation'], 'X')
+            else:
+                c = kw[al['arg']]
+                if al['arg'] == 'sender_receivers' and not isinstance(c, dict):
+                    apply_mutation(c, al['mutation'], ((c[0][0] + 1) % m, c[0][1]) if c else (0, 0))
+                else:
+                    first = (list(c)[0] if c else 0)
+                    apply_mutation(c, al['mutation'], (first + 1) % m, (first + 2) % m)
+        r = await fut
         mark('end')
         return {'res': r}
     if kind == 'input':
@@ -205,7 +262,14 @@ async def exec_op(op, k, env, pid, m, mark):
         vals = [(k + 2 * pid + 3 * h) % 11 for h in range(n if n is not None else 1)]
         xs = [T(plain_value(env, st, v)) for v in vals]
         mark('main')
-        y = mpc.input(xs if n is not None else xs[0], senders=mkarg(op['senders']))
+        snd = mkarg(op['senders'])
+        y = mpc.input(xs if n is not None else xs[0], senders=snd)
+        al = op.get('alias')
+        if al:
+            if al['arg'] == 'x':
+                apply_mutation(xs, al['mutation'], T(plain_value(env, st, 9)))
+            else:
+                apply_mutation(snd, al['mutation'], (snd[0] + 1) % m if snd else 0, (snd[0] + 2) % m if snd else 0)
         # flatten to the list of secure objects in (sender, element) order
         if op['senders'] is not None and op['senders'][0] == 'int':
             flat = list(y) if n is not None else [y]
@@ -259,7 +323,15 @@ async def exec_op(op, k, env, pid, m, mark):
         if op.get('raw'):
             kw['raw'] = True
         mark('main')
-        r = await mpc.output(xs if n is not None else xs[0], **kw)
+        fut = mpc.output(xs if n is not None else xs[0], **kw)
+        al = op.get('alias')
+        if al:
+            if al['arg'] == 'x':
+                apply_mutation(xs, al['mutation'], T(plain_value(env, st, 9)))
+            else:
+                c = kw['receivers']
+                apply_mutation(c, al['mutation'], (c[0] + 1) % m if c else 0, (c[0] + 2) % m if c else 0)
+        r = await fut
         mark('end')
         rl = r if n is not None else [r]
         if op.get('raw'):     # field elements: compare as residues
@@ -329,7 +401,11 @@ def run_ops(m, t, ops, seed, no_prss=False, policy=None, idle_limit=300):
                 rec['draws'] = marks.get('open', marks['end'])[2] - marks['main'][2]
                 rec['done'] = True
             return 'ok'
-        out['status'] = sim.run(prog, policy, idle_limit=idle_limit)
+        try:
+            out['status'] = sim.run(prog, policy, idle_limit=idle_limit)
+        except Exception as e:   # raised by the runtime's protocol code while the wire delivers (e.g. duplicate label)
+            excs.append('delivery:' + type(e).__name__)
+            out['status'] = ['PENDING'] * m
         # independent frame parser vs ME.send log: same number of frames on every link
         wire_ok = True
         for i in range(m):
@@ -553,8 +629,55 @@ def gen_output_ops(m, t, rng, exhaustive, nsample, stypes):
     return ops
 
 
+def gen_alias_ops(m, t):
+    """call; mutate the caller's own container in place; await.  Expected = call-time arguments.
+    Order: output, input (believed clean), transfer last (open finding: a hang there must not hide the others)."""
+    ops = []
+    a, b = 0, (1 % m)
+    R2 = [a] if m == 1 else [b, a]
+
+    def al(base, arg, mut):
+        o = dict(base)
+        o['alias'] = {'arg': arg, 'mutation': mut}
+        return o
+    for mut in MUTATIONS:
+        for st in ('secint', 'secfxp'):
+            base = {'op': 'output', 'stype': st, 'threshold': None, 'n': 3, 'src': 'input', 'dealer': 0}
+            ops.append(al(dict(base, receivers=['list', [a]]), 'receivers', mut))
+            ops.append(al(dict(base, receivers=['list', list(R2)]), 'receivers', mut))
+            ops.append(al(dict(base, receivers=['list', [a]]), 'x', mut))
+            ops.append(al(dict(base, receivers=['range', 0, max(1, m - 1)]), 'x', mut))
+            ops.append(al(dict(base), 'x', mut))
+    for mut in MUTATIONS:
+        for st in ('secint', 'secfld'):
+            ops.append(al({'op': 'input', 'stype': st, 'senders': ['list', [a]], 'n': 3}, 'x', mut))
+            ops.append(al({'op': 'input', 'stype': st, 'senders': ['list', [a]], 'n': 3}, 'senders', mut))
+            ops.append(al({'op': 'input', 'stype': st, 'senders': ['list', list(R2)], 'n': 2}, 'senders', mut))
+            ops.append(al({'op': 'input', 'stype': st, 'senders': ['range', 0, m], 'n': 2}, 'x', mut))
+    allp = list(range(m))
+    for mut in MUTATIONS:
+        bip = {'op': 'transfer', 'form': 'bip', 'senders': ['list', [a]], 'receivers': ['list', list(allp)]}
+        ops.append(al(bip, 'obj', mut))
+        ops.append(al(bip, 'senders', mut))
+        ops.append(al(bip, 'receivers', mut))
+        ops.append(al({'op': 'transfer', 'form': 'bip', 'senders': ['list', list(R2)], 'receivers': ['list', [a]]}, 'senders', mut))
+        ops.append(al({'op': 'transfer', 'form': 'bip', 'senders': ['list', list(R2)], 'receivers': ['list', [a]]}, 'receivers', mut))
+        ops.append(al({'op': 'transfer', 'form': 'dict', 'items': [[a, ['list', list(allp)]]]}, 'sender_receivers', mut))
+        ops.append(al({'op': 'transfer', 'form': 'dict', 'items': [[i, ['list', [a]]] for i in allp]}, 'sender_receivers', mut))
+        ops.append(al({'op': 'transfer', 'form': 'pairs', 'pairs': [[a, j] for j in allp]}, 'sender_receivers', mut))
+        ops.append(al({'op': 'transfer', 'form': 'dict', 'items': [[a, ['list', list(allp)]]]}, 'obj', mut))
+    return ops
+
+
 # ------------------------------------------------------------------------------------------------
 # checking one batch
+
+def alias_sig(op, m, sig):
+    al = op.get('alias')
+    if not al:
+        return sig
+    return 'aliasing %s arg=%s mutation=%s m=%d (%s)' % (op['op'], al['arg'], al['mutation'], m, sig)
+
 
 def describe(op):
     return {k: v for k, v in op.items()}
@@ -572,9 +695,15 @@ def check_batch(ctx, m, t, no_prss, ops, run, exprs, meta, tag):
         op = ops[k]
         recs = [run['recs'][pid][k] for pid in range(m)]
         nmsg = sum(len(sends_of(r)) for r in recs)
+
+        class _V:        # aliasing ops report under their own signature class
+            @staticmethod
+            def violation(sig, detail, op=op):
+                return ctx.violation(alias_sig(op, m, sig), detail)
+        V = _V if 'alias' in op else ctx
         raised = [{'party': j, 'exception': recs[j]['exc']} for j in range(m) if 'exc' in recs[j]]
         if raised:
-            ctx.violation('%s raised %s m=%d' % (op['op'] + '/' + str(op.get('form', op.get('stype'))),
+            V.violation('%s raised %s m=%d' % (op['op'] + '/' + str(op.get('form', op.get('stype'))),
                                                   raised[0]['exception'], m),
                           {'config': cfg, 'op': describe(op), 'k': k, 'raised': raised})
             ctx.case({'cfg': cfg, 'op': op}, nontrivial=False, kind='raised')
@@ -585,10 +714,10 @@ def check_batch(ctx, m, t, no_prss, ops, run, exprs, meta, tag):
             for j in range(m):
                 r = recs[j]['res']
                 if exp[j][0] == 'list':
-                    want = [payload(k, i) for i in exp[j][1]]
+                    want = [op_payload(op, k, i) for i in exp[j][1]]
                     good = isinstance(r, list) and r == want and [type(a) for a in r] == [type(a) for a in want]
                 elif exp[j][0] == 'one':
-                    want = payload(k, exp[j][1])
+                    want = op_payload(op, k, exp[j][1])
                     good = (r == want and type(r) is type(want))
                 else:
                     want = None
@@ -596,7 +725,7 @@ def check_batch(ctx, m, t, no_prss, ops, run, exprs, meta, tag):
                 if not good:
                     bad.append({'party': j, 'got': repr(r)[:200], 'want': repr(want)[:200]})
             if bad:
-                ctx.violation('transfer wrong-result form=%s m=%d' % (op['form'], m),
+                V.violation('transfer wrong-result form=%s m=%d' % (op['form'], m),
                               {'config': cfg, 'op': describe(op), 'k': k, 'bad': bad})
             exprs.append(transfer_coq(op, m))
             meta.append(('transfer', cfg, op, k, recs))
@@ -622,7 +751,7 @@ def check_batch(ctx, m, t, no_prss, ops, run, exprs, meta, tag):
             bad += [{'party': j, 'shape': recs[j]['shape'], 'want_shape': shape}
                     for j in range(m) if recs[j]['shape'] != shape]
             if bad:
-                ctx.violation('input wrong-value stype=%s m=%d' % (st, m),
+                V.violation('input wrong-value stype=%s m=%d' % (st, m),
                               {'config': cfg, 'op': describe(op), 'k': k, 'bad': bad})
             if st in NUMERIC and cnt > 0:
                 exprs.append('map (fun p => (input_sends %d %s p, input_recvs %s p)) (seq 0 %d)'
@@ -645,13 +774,13 @@ def check_batch(ctx, m, t, no_prss, ops, run, exprs, meta, tag):
                     else:
                         bad.append({'party': j, 'got': repr(got)[:200], 'want': repr(want)[:200]})
             if badlen:
-                ctx.violation('output secgrp tuple-share list non-receiver None-count stype=%s m=%d' % (st, m),
+                V.violation('output secgrp tuple-share list non-receiver None-count stype=%s m=%d' % (st, m),
                               {'config': cfg, 'op': describe(op), 'k': k, 'bad': badlen})
             vals = {repr(recs[j]['res']) for j in R if j < m}
             if len(vals) > 1:
                 bad.append({'receivers disagree': sorted(vals)})
             if bad:
-                ctx.violation('output wrong-value stype=%s m=%d' % (st, m),
+                V.violation('output wrong-value stype=%s m=%d' % (st, m),
                               {'config': cfg, 'op': describe(op), 'k': k, 'bad': bad})
             if st in NUMERIC:
                 th = t if op.get('threshold') is None else op['threshold']
@@ -669,7 +798,7 @@ def check_batch(ctx, m, t, no_prss, ops, run, exprs, meta, tag):
     if stuck is not None:
         k, who = stuck
         op = ops[k]
-        ctx.violation('%s incomplete m=%d' % (op['op'] + ('/' + op.get('form', op.get('stype', ''))), m),
+        ctx.violation(alias_sig(op, m, '%s incomplete m=%d' % (op['op'] + ('/' + op.get('form', op.get('stype', ''))), m)),
                       {'config': cfg, 'op': describe(op), 'k': k, 'stuck_parties': who, 'exceptions': run['excs'][:6],
                        'status': [s if s == 'ok' else str(s) for s in run['status']]})
 
@@ -718,9 +847,9 @@ def compare_model(ctx, res, meta):
                 if recvs_of(recs[pid]) != mrecvs:
                     diffs.append((pid, 'recvs', recvs_of(recs[pid]), mrecvs))
                 if sender_int:     # option: None | Some i
-                    want = None if mres is None else payload(k, mres[1])
+                    want = None if mres is None else op_payload(op, k, mres[1])
                 else:
-                    want = [payload(k, i) for i in mres]
+                    want = [op_payload(op, k, i) for i in mres]
                 got = recs[pid]['res']
                 if got != want or (want is None) != (got is None):
                     diffs.append((pid, 'result', repr(got)[:100], mres))
@@ -757,7 +886,13 @@ def compare_model(ctx, res, meta):
                         wantv = [a % p for a in mv[1]]
                     if gotv != wantv:
                         diffs.append((pid, 'value', gotv, wantv))
-        if diffs:
+        if diffs and 'alias' in op:
+            # the model is evaluated on the arguments as passed at call time: a difference means the
+            # operation followed the caller's later change of its own object -> the property fails
+            mism += 1
+            ctx.violation(alias_sig(op, m, 'routing/result differs from the call-time arguments'),
+                          {'config': cfg, 'op': describe(op), 'k': k, 'diffs': [list(map(str, d)) for d in diffs[:6]]})
+        elif diffs:
             mism += 1
             ctx.broken.append({'kind': 'correspondence', 'what': kind, 'config': cfg, 'op': op, 'diffs': diffs[:4]})
     return mism
@@ -834,6 +969,15 @@ def run(ctx):
         run_ = run_ops(m, t, safe, ctx.seed * 131 + m * 7 + t, no_prss=no_prss)
         check_batch(ctx, m, t, no_prss, safe, run_, exprs, meta, 'batch')
         nbatch += 1
+    # aliasing stream: late reads of caller-owned mutable arguments (asynchronous mode: -M1 and m=3)
+    nalias = 0
+    for (m, t) in ((1, 0), (3, 1)):
+        aops = gen_alias_ops(m, t)
+        ctx.log('aliasing stream m=%d: %d call/mutate/await ops' % (m, len(aops)))
+        run_ = run_ops(m, t, aops, ctx.seed * 257 + m, idle_limit=200)
+        check_batch(ctx, m, t, False, aops, run_, exprs, meta, 'aliasing')
+        nalias += len(aops)
+    ctx.extra['aliasing_ops'] = nalias
     # predicted failures, each alone in a fresh simulator (they kill the calling party)
     rng.shuffle(risky)
     by_class = {}
@@ -860,7 +1004,9 @@ def run(ctx):
         res = ctx.coq_eval(['MPyC.Routing'], exprs, chunk=250)
         mism = compare_model(ctx, res, meta)
         ctx.extra['traces_validated_against_impl'] = len(exprs) - mism
-        ctx.log('model/implementation disagreements: %d (of %d)' % (mism, len(exprs)))
+        nal = sum(1 for mt in meta if 'alias' in mt[2])
+        ctx.log('model/implementation disagreements: %d (of %d; %d aliasing ops, where a disagreement with the '
+                'call-time model is reported as a violation of the property)' % (mism, len(exprs), nal))
     ctx.extra['simulator_runs'] = nbatch + len(chosen)
     ctx.notes.append('subsets exhaustive for (m,t) in %s; sampled for %s' % (
         [c[:2] for c in configs], [c[:2] for c in sampled]))
